@@ -101,11 +101,72 @@ def role_mapping(facts):
     return mapping
 
 
+FIELD_ROLES = {
+    # private fields are recognised by their type, which is unique within the struct
+    "expression::flat::FlatEx": [("nodes", r"^smallvec::SmallVec<\[expression::flat::detail::FlatNode<"), ("flat_ops", r"^smallvec::SmallVec<\[expression::flat::detail::FlatOp<"),
+                                 ("prio_indices", r"^smallvec::SmallVec<\[usize;"), ("var_names", r"^smallvec::SmallVec<\[std::string::String;"), ("text", r"^std::string::String$")],
+    "expression::deep::DeepEx": [("nodes", r"^std::vec::Vec<expression::deep::DeepNode<"), ("bin_ops", r"^expression::deep::BinOpsWithReprs<"), ("unary_op", r"^expression::deep::UnaryOpWithReprs<"),
+                                 ("var_names", r"^smallvec::SmallVec<\[std::string::String;"), ("text", r"^std::string::String$"), ("ops", r"^std::vec::Vec<operators::Operator<")],
+    "expression::flat::detail::FlatOp": [("unary_op", r"^operators::UnaryOp<"), ("bin_op", r"^operators::BinOpWithIdx<")],
+    "expression::flat::detail::FlatNode": [("kind", r"^expression::flat::detail::FlatNodeKind<"), ("unary_op", r"^operators::UnaryOp<")],
+    "operators::BinOpWithIdx": [("op", r"^operators::BinOp<"), ("idx", r"^usize$")],
+    "operators::UnaryFuncWithIdx": [("f", r"^fn\("), ("idx", r"^usize$")],
+    "operators::UnaryOp": [("funcs_to_be_composed", r"^smallvec::SmallVec<\[operators::UnaryFuncWithIdx<")],
+    "expression::deep::UnaryOpWithReprs": [("reprs", r"^smallvec::SmallVec<\[&"), ("op", r"^operators::UnaryOp<")],
+    "expression::deep::BinOpsWithReprs": [("reprs", r"^smallvec::SmallVec<\[&"), ("ops", r"^smallvec::SmallVec<\[operators::BinOpWithIdx<")],
+    "expression::partial::PartialDerivative": [("repr", r"^&"), ("bin_op", r"^std::option::Option<fn\(expression::partial::ValueDerivative<"), ("unary_outer_op", r"^std::option::Option<fn\(expression::deep::DeepEx<")],
+}
+
+
+def field_mapping(facts):
+    """{adt path: {actual field name: canonical name}}"""
+    out = {}
+    for a in facts.get("adts", []):
+        roles = FIELD_ROLES.get(a["path"])
+        if not roles or a.get("kind") != "struct" or not a.get("variants"):
+            continue
+        fields = a["variants"][0]["fields"]
+        names = {f["name"] for f in fields}
+        m = {}
+        for canon, rx in roles:
+            c = [f["name"] for f in fields if re.search(rx, f["ty"])]
+            if len(c) == 1 and c[0] != canon and canon not in names:
+                m[c[0]] = canon
+        if m:
+            out[a["path"]] = m
+    return out
+
+
+def _rename_fields(o, fmap):
+    if isinstance(o, dict):
+        k = o.get("k")
+        if k == "field" and o.get("owner") in fmap and o.get("name") in fmap[o["owner"]]:
+            o["name"] = fmap[o["owner"]][o["name"]]
+        elif k == "aggregate" and o.get("agg") == "adt" and o.get("adt") in fmap and isinstance(o.get("fields"), list):
+            o["fields"] = [fmap[o["adt"]].get(x, x) for x in o["fields"]]
+        for v in o.values():
+            _rename_fields(v, fmap)
+    elif isinstance(o, list):
+        for v in o:
+            _rename_fields(v, fmap)
+
+
 def normalise(facts):
-    """Rewrite the fact base so that role-identified functions carry their canonical paths."""
+    """Rewrite the fact base so that role-identified functions carry their canonical paths (and role-identified private
+    fields their canonical names)."""
+    fmap = field_mapping(facts)
+    if fmap:
+        for a in facts.get("adts", []):
+            if a["path"] in fmap:
+                for f in a["variants"][0]["fields"]:
+                    f["name"] = fmap[a["path"]].get(f["name"], f["name"])
+        for key in ("bodies", "promoted"):
+            _rename_fields(facts.get(key, []), fmap)
     mapping = role_mapping(facts)
+    if fmap:
+        mapping = dict(mapping)
     if not mapping:
-        return facts, {}
+        return facts, ({"fields": fmap} if fmap else {})
     text = json.dumps(facts)
     for old, new in sorted(mapping.items(), key=lambda kv: -len(kv[0])):
         # JSON-escaped form of the path, followed by a non-identifier character
@@ -124,4 +185,7 @@ def normalise(facts):
                 f = t.get("func") or {}
                 if f.get("k") == "fndef" and f.get("path") in mapping.values():
                     f["name"] = f["path"].rsplit("::", 1)[-1]
-    return out, mapping
+    res = dict(mapping)
+    if fmap:
+        res["fields"] = fmap
+    return out, res
